@@ -427,6 +427,8 @@ class Model(object):
         # parameters
         if hasattr(self.domain_geometry, 'gradient'):
             grad = self.domain_geometry.gradient(grad, wrt_par)
+            if isinstance(grad, CUQIarray): # drop flags numpy propagated from wrt through user code
+                grad = grad.to_numpy()
             grad_is_par = True # Gradient is parameters
 
         # we convert the computed gradient to parameters
